@@ -56,13 +56,21 @@ def case_term(o):
     raise verif.Broken("harness emitted an unknown case type %r" % (t,))
 
 
+CHUNK = 150   # cases per list literal: a single huge literal overflows coqc's stack
+
+
 def case_file(rows):
     body = ["From Coq Require Import ZArith List Uint63.", "From SX Require Import Base.Bytes Model.Json Model.ArpCache Spec.C11.",
-            "Import ListNotations.", "Open Scope Z_scope.", "Definition cases : list case := ["]
-    body.append(";\n".join(case_term(o) for o in rows))
-    body.append("].")
-    body.append("Definition M := Eval vm_compute in check_all 0 cases.")
-    body.append("Definition L := Eval vm_compute in length cases.")
+            "Import ListNotations.", "Open Scope Z_scope."]
+    names = []
+    for k in range(0, len(rows), CHUNK):
+        nm = "cases_%d" % (k // CHUNK)
+        names.append(nm)
+        body.append("Definition %s : list case := [" % nm)
+        body.append(";\n".join(case_term(o) for o in rows[k:k + CHUNK]))
+        body.append("].")
+    body.append("Definition M := Eval vm_compute in check_all 0 (%s)." % " ++ ".join(names or ["[]"]))
+    body.append("Definition L := Eval vm_compute in length (%s)." % " ++ ".join(names or ["[]"]))
     body.append("Print M. Print L.")
     return "\n".join(body)
 
